@@ -112,7 +112,25 @@ theorem recreated_dir_is_opaque (s : St) (hc : Consistent s) (pp : Path) (n : Na
   have := doCreateLike_spec pp n true .mkdir (.dir mode 0 0)
     ⟨rfl, rfl, fun _ => ⟨mode, rfl⟩, fun h => (by cases h)⟩ s hc hpm hlo
   rw [h] at this
-  exact ⟨this.2 rfl ⟨o, ho⟩, this.1⟩
+  exact ⟨this.2.1 rfl ⟨o, ho⟩, this.1⟩
+
+/-- `recreated_dir_is_empty`: whenever `do_mkdir` succeeds (over nothing, over an upper whiteout,
+    over a lower whiteout, whatever directories of that name the lower layers have), the new
+    directory shows as a directory with the requested mode and NOTHING is visible below it — on
+    disk (`merge`), hence also live and after a restart (`C10.view_is_merge_of_consistent`,
+    `restart_view_eq_live_of_consistent`). -/
+theorem recreated_dir_is_empty (s : St) (hc : Consistent s) (pp : Path) (n : Name) (mode : Nat)
+    (pm : MNode) (hpm : s.mem pp = some pm) (hlo : pm.loaded = true)
+    (s' : St) (h : doCreateLike pp n true (mkChildOf .mkdir n (.dir mode 0 0)) s = .ok () s') :
+    merge s'.disk (n :: pp) = .dir mode 0 ∧ (∀ (c : Name) (q : List Name), merge s'.disk (q ++ c :: n :: pp) = .none) ∧
+      Consistent s' := by
+  have := doCreateLike_spec pp n true .mkdir (.dir mode 0 0)
+    ⟨rfl, rfl, fun _ => ⟨mode, rfl⟩, fun h => (by cases h)⟩ s hc hpm hlo
+  rw [h] at this
+  obtain ⟨hc', _, ⟨X', hX', hv⟩, hempty⟩ := this
+  refine ⟨?_, fun c q => Fbr.Thm.C10.merge_none_below s'.disk hc'.roots _ (hempty rfl c) q, hc'⟩
+  rw [merge_eq_specStat s'.disk hc'.roots, hX']
+  exact hv
 
 /-- Copy-up keeps the cache valid: after `copy_node_up(p)` (a file, symlink, special file or
     directory with any chain of missing parent directories) the forest is still exactly what a
